@@ -565,11 +565,29 @@ class Block:
             return False
         return not any(list(map(lambda c: c.uses_factor(f), self.constraints)))
 
+    def __implied_factors_in_dependency_order(self, results: dict) -> List[Factor]:
+        """The implied factors of the design, each after the implied factors it depends on
+        (an implied factor may be listed in the design before one of its dependencies)."""
+        pending = [f for f in self.design if f not in self.act_design]
+        ordered = cast(List[Factor], [])
+        known = set(results.keys())
+        while pending:
+            ready = [f for f in pending
+                     if all(df.name in known
+                            for l in f.levels if isinstance(l, DerivedLevel)
+                            for df in l.window.factors)]
+            if not ready:
+                ready = pending
+            ordered += ready
+            known |= set(f.name for f in ready)
+            pending = [f for f in pending if f not in ready]
+        return ordered
+
     def add_implied_levels(self, results: dict) -> dict:
         """Given a dictionary for an experiment that maps all non-implied factors to their levels,
         adds level values for implied factors"""
         n = len(list(results.values())[0])
-        for f in self.design:
+        for f in self.__implied_factors_in_dependency_order(results):
             if f not in self.act_design:
                 sustain_count = self.sustain_count(f)
                 vals = []
